@@ -53,6 +53,9 @@ CHECKS = {
  "C18": dict(cat="exploration", technique="generated numba module compiled with compile() and executed as plain Python behind an index-checking numba.carray stub, compared kernel-by-kernel with the C JIT kernel on identical buffers and with the oracle; field-by-field descriptor comparison",
    text="Every form/expression of the corpus that the C backend accepts is generated with language='numba'; the module must be valid Python, each kernel must stay inside the carray sizes it declares and the buffers the contract gives, and must equal the C kernel (5e4 eps) and the oracle; every descriptor field (form, integral, expression) must equal the C descriptor's.",
    note="Quick tier executes the module as plain Python (numba type inference/compilation not exercised). Four numba defects found and fixed (plus the spellings fixed under C16).", ref="3/C18"),
+ "C19": dict(cat="exploration", technique="stand-alone gcc -std=c17 -Wall builds of generated sources; exhaustive rule-id injectivity contract over all rule pairs per (cell, entity type) with compiled witnesses; audit-hook rejection monitor",
+   text="Every accepted case of the corpora is generated and compiled stand-alone; all pairs of rules ffcx creates (default/Gauss-Jacobi/GLL x degree 0..30, vertex) per cell and entity type are tested for distinct ids (names embedding the id would otherwise collide) and colliding / sampled pairs are compiled; 16 unsupported constructs must raise before any compiler process is launched or else agree with the oracle.",
+   note="Exhaustive over rule pairs only. Two defects found and fixed (rule id collisions; jn/yn undeclared under -std=c17).", ref="3/C19"),
 }
 NA_REASON = "check not built yet in this round (runtime monitoring applies; see DESIGN.md section 3)"
 
